@@ -34,7 +34,7 @@ def run(ctx):
     for mr in models(ctx.quick):
         res = npx.run_model(ctx, mr, coverage=not ctx.quick)
         alph = [nc.AA] if len(mr.kw["letters"]) == 3 else ["AC", "WY"]
-        npx.replay_emitted(ctx, res, [nc.AA], classify=classify)
+        npx.replay_emitted(ctx, res, [nc.AA], classify=classify, budget=None if ctx.quick else 60000)
     ctx.exhaustive = True
     sessions, sid = [], 0
     sub = "ACDHIY"
